@@ -274,6 +274,13 @@ write_stream(int fd, void *base, void *dst, const void *src, size_t size)
 		if (written < 0)
 			die("pwrite failed:");
 
+#ifdef OVNI_VERIF
+		/* Verification hook: the heap copy of the stream doesn't see
+		 * the file writes as the private mapping does, mirror them. */
+		if (getenv("OVNI_VERIF_HEAPBUF") != NULL)
+			memcpy(dst, src, (size_t) written);
+#endif
+
 		size -= (size_t) written;
 		src = (void *) (((uint8_t *) src) + written);
 		dst = (void *) (((uint8_t *) dst) + written);
